@@ -90,7 +90,7 @@ Pool& the_pool() { return g_the_pool; }
 const void* Pool::get(const char* kind, int index, MakeFn make, DigestFn digest, size_t bytes) {
   for (size_t i = 0; i < g_npool; ++i)
     if (g_pool[i].index == index && !strcmp(g_pool[i].kind, kind)) return g_pool[i].obj;
-  if (sim::in_task()) {
+  if (sim::in_task() && !preparing) {
     fprintf(stderr, "h: pool object %s[%d] requested from inside a task (prep() incomplete)\n", kind, index);
     _Exit(2);
   }
